@@ -1277,7 +1277,7 @@ func Run(c *Case) (st *Stats, err error) {
 					what = c.Ops[i].T
 				}
 				stx := e.St
-				return &stx, &Violation{Op: i, Msg: fmt.Sprintf("op #%d (%s) did not return: the call is still in progress and the storage has not seen an operation for %ds\n%s", i, what, HangSeconds, dbStacks())}
+				return &stx, &Violation{Op: i, Msg: fmt.Sprintf("step %d (%s) did not return: the call is still in progress and the storage has not seen an operation for %ds\n%s", i, what, HangSeconds, dbStacks())}
 			}
 		}
 	}
